@@ -494,10 +494,20 @@ def run_linear(ck, rng, c, steps, which, k=None, tv_t0=None):
     s, n = c["sys"], c["n"]
     model = LinNLS(s)
     c = share_QR(dict(c))
-    ctor = bool(rng.integers(2))                     # Q, R handed to the constructor or to every call
+    qr_mode = int(rng.integers(3))                   # 0: every call, 1: constructor, 2: constructor defaults + per-call overrides on some steps
+    ctor = qr_mode == 1
     cls = pp.module.EKF if which == "ekf" else pp.module.UKF
-    flt = cls(model, Q=c["_Qt"], R=c["_Rt"]) if ctor else cls(model)
-    ck.mark(f"run/{which}/QR:{'constructor' if ctor else 'per-call'}")
+    Qc, Rc = c["Q"], c["R"]
+    if qr_mode == 2:
+        # the constructor's covariances differ from the per-call ones: a step without override must use the constructor's,
+        # whatever earlier calls were given
+        Qc, Rc = c["Q"] * float(rng.uniform(1.5, 4.0)), c["R"] * float(rng.uniform(0.3, 0.7))
+        flt = cls(model, Q=T(Qc), R=T(Rc))
+        ck.mark(f"run/{which}/QR:constructor+override")
+    else:
+        flt = cls(model, Q=c["_Qt"], R=c["_Rt"]) if ctor else cls(model)
+        ck.mark(f"run/{which}/QR:{'constructor' if ctor else 'per-call'}")
+    Qtrue, Rtrue = c["Q"], c["R"]
     entry = "EKF.forward" if which == "ekf" else "UKF.forward"
     kv = None if which == "ekf" else (3 - n if k is None else k)
     xf, Pf = c["x"].copy(), c["P"].copy()            # filter's own
@@ -517,6 +527,11 @@ def run_linear(ck, rng, c, steps, which, k=None, tv_t0=None):
         y = KR.f64(s.g(xt, u, t)) + np.linalg.cholesky(c["R"]) @ rng.standard_normal(c["p"])
         if rng.random() < 0.1:
             y = y + rng.standard_normal(c["p"]) * (abs(y).max() + 1) * 10
+        override = qr_mode != 2 or (i > 0 and rng.random() < 0.4)
+        c = dict(c, Q=Qtrue if override else Qc, R=Rtrue if override else Rc)     # the covariances this step must use
+        ctor = (qr_mode == 1) or (qr_mode == 2 and not override)
+        if qr_mode == 2:
+            ck.mark(f"run/{which}/step-with-override" if override else f"run/{which}/default-step-after-override" if i > 1 else f"run/{which}/default-step")
         ci = dict(c, x=xf, P=Pf, u=u, y=y)
         r1 = KR.ekf_step(s, xf, Pf, c["Q"], c["R"], y, u, t)     # from the filter's own previous output
         rp = KR.ekf_step(s, xr, Pr, c["Q"], c["R"], y, u, t)     # parallel recursion
@@ -993,7 +1008,7 @@ def run(ck):
                    f"{who}/A/singular", f"{who}/C/full", f"{who}/C/rankdef", f"{who}/C/zero", f"{who}/p>n", f"{who}/p<n",
                    f"{who}/y/model", f"{who}/y/outlier", f"{who}/x/far", f"{who}/tv", f"{who}/reltol<=1e-9",
                    f"run/{who}/len>=50", f"run/{who}/A:unstable", f"run/{who}/reltol<=1e-9",
-                   f"run_par/{who}/judged-at-step-50", f"run/{who}/QR:constructor", f"run/{who}/QR:per-call",
+                   f"run_par/{who}/judged-at-step-50", f"run/{who}/QR:constructor", f"run/{who}/QR:per-call", f"run/{who}/QR:constructor+override", f"run/{who}/default-step-after-override",
                    *[f"{who}/{q}scale/{s}" for q in "PQR" for s in ("lo", "mid", "hi")])
     ck.require("ukf/k/None", "ukf/k/0", "ukf/k/neg", "ukf/k/neg-near--n", "ukf/k/pos", "ukf/k/pos-large",
                "ukf/centre-weight<0", "ukf/centre-weight>=0", "ukf_nl/valid",
